@@ -1558,6 +1558,7 @@ def _oracle_round3(ctx: Ctx, budget: str):
     guarded("precisions", _o_precisions, reps)
     guarded("identity-and-instances", _o_identity_and_instances, reps)
     guarded("handed-out", _o_handed_out, reps)
+    guarded("by-reference", _o_by_reference_isolation, reps)
     guarded("atomgrid.AtomGrid.basis:memo", _o_basis, reps)
     guarded("molgrid.MolGrid:atgrids", _o_molgrid_stored, reps)
     guarded("basegrid.get_localgrid:kdtree", _o_kdtree, reps)
@@ -2982,3 +2983,156 @@ def bg_copy(rg):
     """A OneDGrid of its own (so that editing `atomgrid.rgrid` does not touch the one shared by the other cases)."""
     bg = importlib.import_module("grid.basegrid")
     return bg.OneDGrid(rg.points.copy(), rg.weights.copy(), rg.domain)
+
+
+# ==========================================================================================
+# Objects handed out BY REFERENCE (rgrid, weights, indices, center, the infinite-radius local grid): an in-place edit /
+# setter rebind on ONE holder must not reach any OTHER object — the other atoms of the molecule (same and other element), a
+# molecule built before, and everything built AFTERWARDS through the constructors with default arguments (ninth round of
+# seeded changes: the default radial grid memoised per element, one OneDGrid shared by all atoms of an element).
+# ==========================================================================================
+def _default_rgrid_closed_form(atnum):
+    """r_i = rmin (i + 1)^p, w_i = rmin p (i + 1)^(p - 1), p = log(rmax / rmin) / log(npt), from the table of default parameters."""
+    import scipy.constants
+    utils = importlib.import_module("grid.utils")
+    rmin, rmax, npt = utils._DEFAULT_POWER_RTRANSFORM_PARAMS[int(atnum)]
+    conv = scipy.constants.angstrom / scipy.constants.value("atomic unit of length")
+    rmin, rmax = rmin * conv, rmax * conv
+    i = np.arange(float(npt))
+    p = np.log(rmax / rmin) / np.log(float(npt))
+    return rmin * (i + 1.0) ** p, rmin * p * (i + 1.0) ** (p - 1.0)
+
+
+def _atom_obs(a):
+    """What other code reads from an atomic grid, incl. what is read from its rgrid at call time."""
+    k = min(3, a.n_shells - 1)
+    s = a.get_shell_grid(k)
+    return dict(points=a.points.copy(), weights=a.weights.copy(), indices=np.asarray(a.indices).copy(), center=np.asarray(a.center).copy(),
+                rp=a.rgrid.points.copy(), rw=a.rgrid.weights.copy(), shell=(s.points.copy(), s.weights.copy()),
+                radial=np.asarray(a.integrate_angular_coordinates(np.ones(a.size))).copy())
+
+
+def _obs_equal(o1, o2):
+    for k in o1:
+        a, b = o1[k], o2[k]
+        if isinstance(a, tuple):
+            if not all(x.shape == y.shape and np.array_equal(x, y) for x, y in zip(a, b)):
+                return k
+        elif a.shape != b.shape or not np.array_equal(a, b):
+            return k
+    return None
+
+
+def _o_by_reference_isolation(ctx: Ctx, reps=6):
+    mol = importlib.import_module("grid.molgrid")
+    atg = importlib.import_module("grid.atomgrid")
+    bk = importlib.import_module("grid.becke")
+    atn = np.array([1, 1, 8])
+    atc = np.array([[0.0, 0.76, -0.47], [0.0, -0.76, -0.47], [0.0, 0.0, 0.12]])
+    makers = {
+        "MolGrid.from_preset(rgrid=None)": lambda: mol.MolGrid.from_preset(atn.copy(), atc.copy(), "coarse", rgrid=None, aim_weights=bk.BeckeWeights(), store=True),
+        "MolGrid.from_size(rgrid=None)": lambda: mol.MolGrid.from_size(atn.copy(), atc.copy(), 26, rgrid=None, aim_weights=bk.BeckeWeights(), store=True),
+        "MolGrid.from_pruned(rgrid=None)": lambda: mol.MolGrid.from_pruned(atn.copy(), atc.copy(), radius=[1.0, 1.0, 1.5], r_sectors=[[0.5, 1.0, 1.5]] * 3,
+                                                                          d_sectors=[[3, 7, 5, 3]] * 3, rgrid=None, aim_weights=bk.BeckeWeights(), store=True),
+    }
+    # (every construction gets its own copies of the coordinates: an atomic grid keeps the centre array it is given — by reference,
+    #  by convention — so a shared coordinate array would carry the edit of `center` to the other constructions through the harness)
+    atom_maker = lambda z: atg.AtomGrid.from_preset(atnum=z, preset="coarse", rgrid=None)      # noqa: E731
+
+    def snap_mol(mg):
+        return dict(points=mg.points.copy(), weights=mg.weights.copy(), atoms=[_atom_obs(a) for a in mg.atgrids])
+
+    def mol_diff(s, mg):
+        if not (np.array_equal(s["points"], mg.points) and np.array_equal(s["weights"], mg.weights)):
+            return "molecular points / weights"
+        for k, a in enumerate(mg.atgrids):
+            try:
+                d = _obs_equal(s["atoms"][k], _atom_obs(a))
+            except Exception as e:   # noqa: BLE001
+                d = f"raises {type(e).__name__}"
+            if d:
+                return f"atom {k} (Z={int(atn[k])}): {d}"
+        return None
+    # pristine references of everything that will be built afterwards (first thing in this part), and the closed form
+    usable = {}
+    for name, mk in makers.items():
+        try:
+            usable[name] = snap_mol(mk())
+        except Exception as e:   # noqa: BLE001 - a constructor that does not take these arguments on this tree: reported, not used
+            ctx.info(f"{name} not usable in the by-reference part: {type(e).__name__}: {str(e)[:100]}")
+    ref_atoms = {z: _atom_obs(atom_maker(z)) for z in (1, 8)}
+    before = makers["MolGrid.from_size(rgrid=None)"]()                    # a molecule built before
+    s_before = snap_mol(before)
+    m1 = makers["MolGrid.from_preset(rgrid=None)"]()
+    s1 = snap_mol(m1)
+    for k, a in enumerate(m1.atgrids):
+        rp, rw = _default_rgrid_closed_form(atn[k])
+        ctx.count(["oracle-byref-closed-form", int(atn[k])], nontrivial=True, tag="oracle:by-reference")
+        if a.rgrid.points.shape != rp.shape or not (np.allclose(a.rgrid.points, rp, rtol=1e-12, atol=0) and np.allclose(a.rgrid.weights, rw, rtol=1e-12, atol=0)):
+            ctx.fail("oracle", "molgrid.default-rgrid:closed-form", f"default radial grid of Z={int(atn[k])} in MolGrid.from_preset(rgrid=None) differs from r_i = rmin (i+1)^p with the tabulated parameters",
+                     witness={"atnum": int(atn[k])})
+    holder = m1.atgrids[0]
+    edits = [
+        ("rgrid.points edited in place", "a.rgrid.points[...] = a.rgrid.points * 2.0", lambda a: a.rgrid.points.__setitem__(Ellipsis, a.rgrid.points * 2.0)),
+        ("rgrid.weights edited in place", "a.rgrid.weights[...] = 0.0", lambda a: a.rgrid.weights.__setitem__(Ellipsis, 0.0)),
+        ("rgrid.points rebound through the setter", "a.rgrid.points = a.rgrid.points + 1.0", lambda a: setattr(a.rgrid, "points", a.rgrid.points + 1.0)),
+        ("rgrid.weights rebound through the setter", "a.rgrid.weights = a.rgrid.weights * 3.0 + 1.0", lambda a: setattr(a.rgrid, "weights", a.rgrid.weights * 3.0 + 1.0)),
+        ("weights edited in place", "a.weights[...] = -1.0", lambda a: a.weights.__setitem__(Ellipsis, -1.0)),
+        ("indices edited in place", "a.indices[...] = 0", lambda a: np.asarray(a.indices).__setitem__(Ellipsis, 0)),
+        ("center edited in place", "a.center[...] = 9.0", lambda a: np.asarray(a.center).__setitem__(Ellipsis, 9.0)),
+        ("infinite-radius local grid edited in place", "l = a.get_localgrid(a.center, np.inf); l.points[...] = 0.0; l.weights[...] = 0.0",
+         lambda a: [arr.__setitem__(Ellipsis, 0.0) for arr in (lambda l: (l.points, l.weights))(a.get_localgrid(a.center, np.inf))]),
+    ]
+    done = []
+    for ename, etxt, edit in edits:
+        try:
+            edit(holder)
+        except Exception as e:   # noqa: BLE001 - e.g. indices held as a read-only / non-array object
+            ctx.info(f"by-reference edit '{ename}' not possible: {type(e).__name__}")
+            continue
+        done.append(etxt)
+        problems = []
+        # the other atoms of the same molecule (atom 1: same element, atom 2: another element) and the molecule built before
+        for k in (1, 2):
+            try:
+                d = _obs_equal(s1["atoms"][k], _atom_obs(m1.atgrids[k]))
+            except Exception as e:   # noqa: BLE001
+                d = f"raises {type(e).__name__}: {str(e)[:80]}"
+            if d:
+                problems.append(f"atom {k} (Z={int(atn[k])}) of the same molecule: {d}")
+        if not (np.array_equal(m1.points, s1["points"]) and np.array_equal(m1.weights, s1["weights"])):
+            problems.append("points / weights of the molecule itself")
+        d = mol_diff(s_before, before)
+        if d:
+            problems.append("the molecule built before: " + d)
+        # everything built afterwards through the constructors with default arguments
+        for name, ref in usable.items():
+            try:
+                d = mol_diff(ref, makers[name]())
+            except Exception as e:   # noqa: BLE001
+                d = f"raises {type(e).__name__}: {str(e)[:80]}"
+            if d:
+                problems.append(f"{name} built afterwards: {d}")
+        for z in (1, 8):
+            try:
+                d = _obs_equal(ref_atoms[z], _atom_obs(atom_maker(z)))
+            except Exception as e:   # noqa: BLE001
+                d = f"raises {type(e).__name__}: {str(e)[:80]}"
+            if d:
+                problems.append(f"AtomGrid.from_preset(atnum={z}, rgrid=None) built afterwards: {d}")
+        ctx.count(["oracle-byref-isolation", ename], nontrivial=True, tag="oracle:by-reference")
+        if problems:
+            ctx.fail("oracle", "by-reference:isolation",
+                     f"H2O from MolGrid.from_preset(rgrid=None, store=True): after `{ename}` on atom 0 (H), other objects changed: " + "; ".join(problems[:4]),
+                     witness={"edit": ename, "changed": problems},
+                     snippet=("import warnings; warnings.filterwarnings('ignore')\nimport numpy as np\nfrom grid.molgrid import MolGrid\nfrom grid.atomgrid import AtomGrid\nfrom grid.becke import BeckeWeights\n"
+                              "atn = np.array([1, 1, 8]); atc = np.array([[0, .76, -.47], [0, -.76, -.47], [0, 0, .12]])\n"
+                              "mk = lambda: MolGrid.from_preset(atn, atc, 'coarse', rgrid=None, aim_weights=BeckeWeights(), store=True)\n"
+                              "ref = mk(); rp = [g.rgrid.points.copy() for g in ref.atgrids]; rw = [g.rgrid.weights.copy() for g in ref.atgrids]; P, W = ref.points.copy(), ref.weights.copy()\n"
+                              "ra = AtomGrid.from_preset(atnum=1, preset='coarse', rgrid=None).rgrid.points.copy()\n"
+                              "mg = mk(); other = mg.atgrids[1].get_shell_grid(3).points.copy(); a = mg.atgrids[0]\n"
+                              + "".join(t + "\n" for t in done)
+                              + "assert np.array_equal(mg.atgrids[1].get_shell_grid(3).points, other) and np.array_equal(mg.atgrids[1].rgrid.points, rp[1]), 'the edit on atom 0 reached atom 1'\n"
+                              "later = mk()\nassert np.array_equal(later.points, P) and np.array_equal(later.weights, W) and all(np.array_equal(g.rgrid.points, p) and np.array_equal(g.rgrid.weights, w) for g, p, w in zip(later.atgrids, rp, rw)), 'a molecule built afterwards differs'\n"
+                              "assert np.array_equal(AtomGrid.from_preset(atnum=1, preset='coarse', rgrid=None).rgrid.points, ra), 'an atomic grid built afterwards differs'\n"))
+            break
